@@ -238,6 +238,12 @@ func makeTypeImplementsFilter(src, varname string, iface *types.Interface) filte
 
 func makeTypeHasMethodFilter(src, varname string, fn *types.Func) filterFunc {
 	return func(params *filterParams) matchFilterResult {
+		if list := asExprSlice(params.subNode(varname)); list != nil {
+			return exprListFilterApply(src, list.GetExprSlice(), func(x ast.Expr) bool {
+				return typeHasMethod(params.typeofNode(x), fn)
+			})
+		}
+
 		typ := params.typeofNode(params.subNode(varname))
 		if typeHasMethod(typ, fn) {
 			return filterSuccess
